@@ -584,10 +584,20 @@ func tamperRun(s *scenario, rng *mrand.Rand, bit, flipFirst int) bool {
 	}
 	w.Emit(vt.Ev{"event": "Plan", "intact": intactBytes, "total": total, "intact_frames": intactFrames})
 	done := make(chan string, 1)
+	readerGone := make(chan struct{})
+	defer func() {
+		select {
+		case <-readerGone:
+		case <-time.After(5 * time.Second):
+		}
+	}()
 	go func() {
+		defer close(readerGone)
 		o := 0
-		buf := make([]byte, 4096)
-		for {
+		// small application buffers leave decoded data behind in the endpoint when the error is hit
+		buf := make([]byte, []int{4096, 4096, 256, 64, 1, 1500}[int(s.Seed+int64(bit)+1000)%6])
+		reported := false
+		for extra := 0; extra < 200; {
 			k, err := vc.Read(buf)
 			if k > 0 {
 				ok := true
@@ -603,9 +613,16 @@ func tamperRun(s *scenario, rng *mrand.Rand, bit, flipFirst int) bool {
 				w.Emit(vt.Ev{"event": "ReadRet", "d": "x", "off": o, "n": k, "ok": ok, "err": e})
 				o += k
 			}
-			if err != nil {
+			if err != nil && !reported {
+				reported = true
 				done <- err.Error()
-				return
+			}
+			// a consumer like io.ReadFull keeps calling Read when a call returned data together with the error
+			if reported {
+				extra++
+				if k == 0 {
+					return
+				}
 			}
 		}
 	}()
